@@ -14,7 +14,7 @@ func init() {
 		Technique:   "guarded-sink, loop-latch and ordering reachability on the SSA CFG of State.Prune (alternative gate sets per deletion site)",
 		Explanation: "Structural necessary conditions for 'pruning removes only finished changes, together with all their tasks': (R1) each deletion from the change table in State.Prune is either the empty-unready case (ready time zero ∧ spawned before the prune limit ∧ no tasks) or the ready case (ready time non-zero ∧ (ready before the prune limit | more ready changes than the maximum)), with the limits computed as now-pruneWait / now-abortWait; (R2) in the ready case the change is deleted only after the loop that deletes every one of its tasks from the task table was exhausted, every iteration deleting, and the ready counter is decremented; (R3) AbortUnreadyLanes is reached only for a change with zero ready time, spawned before the abort limit (spawn time clamped to the start of operation), after the loop over the pending-change predicates advanced only across predicates that do not claim it; (R4) warnings, notices and orphan tasks are deleted only across their expiry tests.",
 		NotDecided:  "oldest-first ordering among ready changes (sort correctness); clock arithmetic; that the predicates answer correctly.",
-		Run:         runC09,
+		Run:         func(c *Ctx) { runC09(c); runC09x(c) },
 	})
 }
 
